@@ -53,6 +53,17 @@ func genC05(t *rapid.T) C05Case {
 		for i := range v {
 			v[i] *= rapid.SampledFrom([]float64{1, 1, 1e-3, 1e3, 1e6}).Draw(t, "mag")
 		}
+	case 4: // extrema of any finite values: huge / tiny magnitudes of one sign or mixed
+		if stat == "max" || stat == "min" {
+			sign := rapid.SampledFrom([]float64{1, -1, 0}).Draw(t, "sign")
+			for i := range v {
+				m := rapid.SampledFrom([]float64{1e-300, 1e-40, 1e39, 1e100, 1e300, 4e38}).Draw(t, "extreme")
+				v[i] = m * (1 + float64(i%7)/8)
+				if sign < 0 || (sign == 0 && rapid.Bool().Draw(t, "neg")) {
+					v[i] = -v[i]
+				}
+			}
+		}
 	}
 	return C05Case{P: p}
 }
@@ -105,7 +116,7 @@ func checkC05(c C05Case) *Failure {
 	}
 	n := c.P.Nodes[0]
 	l := c.P.Leaves[0]
-	x, err := lib.New(l.Shape, l.Vals, l.Tracked)
+	x, err := lib.NewVia(l.Shape, l.Vals, l.Tracked, l.Via)
 	if err != nil {
 		return failf("cannot build operand: %v", err)
 	}
